@@ -16,7 +16,9 @@ EmitVal ==
 ASSUME EmitVal
 
 Mags == {"0", "0.0000000000000000000000000001", "1", "100000000000000", "79228162514264337593543950335"}
-DatesH == {"0001-01-01", "2024-02-29", "9999-12-31"}
+\* "MIN" / "MAX" are the ends of the calendar the library can represent (chrono: -262143-01-01, +262142-12-31;
+\* reachable through the JSON input, not through the four-digit years of the DSL)
+DatesH == {"0001-01-01", "2024-02-29", "9999-12-31", "MIN", "MAX"}
 Second == {[kind |-> "none", a |-> "1", b |-> "1"]}
   \cup {[kind |-> k, a |-> a, b |-> b] : k \in {"SELL", "CAPRETURN", "ACCUMULATION"}, a \in Mags, b \in Mags}
   \cup {[kind |-> k, a |-> a, b |-> "1"] : k \in {"SPLIT", "UNSPLIT", "DIVIDEND"}, a \in Mags}
